@@ -449,6 +449,148 @@ pub fn t8(prop: &str, seed: u64) -> RunDesc {
     d
 }
 
+/// T9: a cascade long enough for the cascading thread to be re-pinned several times (every 128
+/// nodes) while other threads advance the clock. When the cascade has reached a chosen depth a
+/// pinned reader unlinks the last node's other owner (which stamps that node "now") and keeps
+/// its Snapshot: the decision for that node has to use the clock of that moment (C12 decision
+/// site), and the reader's Snapshot has to stay valid (C02).
+pub fn t9(prop: &str, seed: u64) -> RunDesc {
+    let mut rng = Rng::new(seed);
+    let mut d = base(&mut rng, prop, "dir-t9", seed, 5);
+    d.cfg.max_objects = *rng.pick(&[8u32, 64]);
+    d.cfg.manual_interval = *rng.pick(&[2u32, 8, 64]);
+    d.cfg.stall = None;
+    let len = *rng.pick(&[150u32, 300, 420, 560, 700, 900]);
+    d.cfg.signal_depth = len - *rng.pick(&[3u32, 10, 40, 100]);
+    // tail C (slot 0, highest rank class), extra owner of C in ROOT[0]
+    let mut v = vec![o(K::New, 0, NONE_SLOT, 60_000, 0), o(K::Pin, 0, 0, 0, 0), o(K::Clone, 0, 2, 0, 0), o(K::Store, ROOT0, 2, 0, 0)];
+    for i in 1..len {
+        let (cur, prev) = (i % 2, (i - 1) % 2);
+        v.push(o(K::New, cur, NONE_SLOT, 60_000 - i, 0));
+        v.push(o(K::Store, rc_field(cur, 0), prev, 0, 0));
+    }
+    v.push(o(K::Store, ROOT1, (len - 1) % 2, 0, 0));
+    v.push(o(K::Unpin, 0, 0, 0, 0));
+    let mut t = thread(0, "setup", v);
+    t.stack_kib = 2048;
+    d.threads.push(t);
+    d.threads.push(thread(1, "age", rounds(rng.below(5) as usize)));
+    // releaser: unlinks the head, then helps collecting
+    let mut a = vec![o(K::Pin, 0, 0, 0, 0), o(K::Store, ROOT1, NONE_SLOT, 0, 0), o(K::Flush, 0, 0, 0, 0), o(K::Unpin, 0, 0, 0, 0)];
+    a.extend(rounds(6 + rng.below(6) as usize));
+    let mut t = thread(2, "releaser", a);
+    t.stack_kib = 2048;
+    d.threads.push(t);
+    for i in 0..2 {
+        let mut c = rounds(8 + rng.below(10) as usize);
+        if i == 0 {
+            c.push(o(K::Signal, 6, 0, 0, 0));
+        }
+        let mut t = thread(2, "ticker", c);
+        t.stack_kib = 2048;
+        d.threads.push(t);
+    }
+    let hold = rng.chance(0.7);
+    let mut r = vec![o(K::Await, 7, 0, 0, 0), o(K::Pin, 0, 0, 0, 0), o(K::Load, ROOT0, 0, 0, 0), o(K::Store, ROOT0, NONE_SLOT, 0, 0), o(K::DerefSnap, 0, 0, 0, 0)];
+    if hold {
+        r.push(o(K::Await, 6, 0, 0, 0));
+    }
+    r.extend([o(K::DerefSnap, 0, 0, 0, 0), o(K::Unpin, 0, 0, 0, 0)]);
+    let mut t = thread(2, "reader", r);
+    t.stack_kib = 2048;
+    d.threads.push(t);
+    d.cfg.step_cap = 3_000_000;
+    d.params = J::obj().set("template", "T9 late stamp deep inside a long cascade").set("len", len).set("signal_depth", d.cfg.signal_depth).set("hold", hold);
+    d
+}
+
+/// T10: the T2 choreography with the unlink done from a thread-local destructor that runs after
+/// the thread's participant handle is gone (C20: dropping counted pointers works there too): the
+/// parent is retired, the clock advances, a reader pins and loads the child from ROOT[0], the
+/// exiting thread's destructor empties ROOT[0] (stamping the child), one more advance lets the
+/// parent's cascade reach the child, which must be deferred while the reader is pinned.
+pub fn t10(prop: &str, seed: u64) -> RunDesc {
+    let mut rng = Rng::new(seed);
+    let mut d = base(&mut rng, prop, "dir-t10", seed, 5);
+    d.cfg.stall = None;
+    let prestamp = rng.chance(0.3);
+    d.threads.push(thread(0, "setup", setup_parent_child_ext(true, false, prestamp)));
+    d.threads.push(thread(1, "age", rounds(rng.below(6) as usize)));
+    let m = 1 + rng.below(4) as usize;
+    let m2 = 2 + rng.below(5) as usize;
+    d.threads.push(thread(2, "retire-parent", vec![o(K::Pin, 0, 0, 0, 0), o(K::Store, ROOT1, NONE_SLOT, 0, 0), o(K::Flush, 0, 0, 0, 0), o(K::Unpin, 0, 0, 0, 0), o(K::Signal, 2, 0, 0, 0)]));
+    let mut t = vec![o(K::Await, 2, 0, 0, 0)];
+    t.extend(rounds(m));
+    t.extend([o(K::Signal, 3, 0, 0, 0), o(K::Await, 8, 0, 0, 0)]);
+    t.extend(rounds(m2));
+    t.push(o(K::Signal, 5, 0, 0, 0));
+    d.threads.push(thread(2, "ticker", t));
+    d.threads.push(thread(
+        2,
+        "reader",
+        vec![o(K::Await, 3, 0, 0, 0), o(K::Pin, 0, 0, 0, 0), o(K::Load, ROOT0, 0, 0, 0), o(K::DerefSnap, 0, 0, 0, 0), o(K::Signal, 6, 0, 0, 0), o(K::Await, 5, 0, 0, 0), o(K::DerefSnap, 0, 0, 0, 0), o(K::Unpin, 0, 0, 0, 0)],
+    ));
+    // the exiting thread: registers its handle, then unlinks from its thread-local destructor
+    let how = rng.below(3);
+    let mut x = thread(2, "exiting", vec![o(K::Pin, 0, 0, 0, 0), o(K::Unpin, 0, 0, 0, 0)]);
+    x.tls_mode = if rng.chance(0.8) { 1 } else { 2 };
+    x.exit_mode = 0;
+    let mut tl = vec![o(K::Await, 6, 0, 0, 0)];
+    match how {
+        0 => tl.extend([o(K::Pin, 0, 0, 0, 0), o(K::Store, ROOT0, NONE_SLOT, 0, 0), o(K::Unpin, 0, 0, 0, 0)]),
+        1 => tl.extend([o(K::Pin, 0, 0, 0, 0), o(K::Swap, ROOT0, 0, 0, 0), o(K::Unpin, 0, 0, 0, 0), o(K::DropRc, 0, 0, 0, 0)]),
+        _ => tl.extend([o(K::Pin, 0, 0, 0, 0), o(K::Swap, ROOT0, 0, 0, 0), o(K::Finalize, 0, 0, 0, 0), o(K::Unpin, 0, 0, 0, 0)]),
+    }
+    tl.push(o(K::Signal, 8, 0, 0, 0));
+    x.tls_ops = tl;
+    d.threads.push(x);
+    d.params = J::obj().set("template", "T10 unlink from a thread-local destructor while a reader is pinned across the cascade").set("rounds_before_reader", m).set("rounds_after_unlink", m2).set("how", how).set("prestamp", prestamp);
+    d
+}
+
+/// T11: a thread exits while a backlog of expired, uncollected bags sits in the global queue
+/// (a pinned holder kept them from expiring while they piled up; the clock was then advanced
+/// without collecting). Its thread-local destructor, running after the participant handle is
+/// gone and on a small stack, enters a critical section once more. Tear-down must not turn into
+/// an unbounded recursion over that backlog (C20), and the backlog is reclaimed later.
+pub fn t11(prop: &str, seed: u64) -> RunDesc {
+    let mut rng = Rng::new(seed);
+    let mut d = base(&mut rng, prop, "dir-t11", seed, 4);
+    d.cfg.stall = None;
+    d.cfg.max_objects = *rng.pick(&[2u32, 2, 3, 4]);
+    d.cfg.manual_interval = 64;
+    d.cfg.dtor_api = 0;
+    let k = *rng.pick(&[200u32, 400, 700]);
+    d.threads.push(thread(1, "holder", vec![o(K::Pin, 0, 0, 0, 0), o(K::Signal, 1, 0, 0, 0), o(K::Await, 2, 0, 0, 0), o(K::Unpin, 0, 0, 0, 0)]));
+    let mut p = vec![o(K::Await, 1, 0, 0, 0)];
+    for _ in 0..k {
+        p.push(o(K::New, 0, NONE_SLOT, 0, 0));
+        p.push(o(K::DropRc, 0, 0, 0, 0));
+    }
+    p.extend([o(K::Pin, 0, 0, 0, 0), o(K::Flush, 0, 0, 0, 0), o(K::Unpin, 0, 0, 0, 0), o(K::Signal, 2, 0, 0, 0)]);
+    d.threads.push(thread(1, "producer", p));
+    // the exiting thread first advances the clock without collecting (so that the backlog is
+    // expired when its own participant is finalized), then exits
+    let mut t = Vec::new();
+    for _ in 0..3 + rng.below(3) {
+        t.extend([o(K::Pin, 0, 0, 0, 0), o(K::TryAdvance, 0, 0, 0, 0), o(K::Unpin, 0, 0, 0, 0)]);
+    }
+    let stack = *rng.pick(&[64u32, 128, 256]);
+    let mut x = thread(2, "exiting", t);
+    x.tls_mode = if rng.chance(0.8) { 1 } else { 2 };
+    x.exit_mode = 0;
+    x.stack_kib = stack;
+    x.tls_ops = match rng.below(3) {
+        0 => vec![o(K::Pin, 0, 0, 0, 0), o(K::Unpin, 0, 0, 0, 0)],
+        1 => vec![o(K::New, 0, NONE_SLOT, 0, 0), o(K::DropRc, 0, 0, 0, 0)],
+        _ => vec![o(K::Pin, 0, 0, 0, 0), o(K::New, 0, NONE_SLOT, 0, 0), o(K::DropRc, 0, 0, 0, 0), o(K::Unpin, 0, 0, 0, 0), o(K::Pin, 0, 0, 0, 0), o(K::Unpin, 0, 0, 0, 0)],
+    };
+    d.threads.push(x);
+    d.cfg.step_cap = 1_500_000;
+    d.params = J::obj().set("template", "T11 thread tear-down on a small stack with a backlog of expired bags").set("garbage_objects", k).set("exit_stack_kib", stack);
+    d
+}
+
 /// T5: clock wrap — no collection of the interesting objects while stamps age past 16 / 32
 /// epochs, then the T2 choreography.
 pub fn t5(prop: &str, seed: u64) -> RunDesc {
